@@ -193,6 +193,31 @@ pub fn gen_world(seed: u64, idx: u64, s: &dyn SuiteOps, mode: usize) -> World {
                 b.push(Op::ServerFinish { st: Ref::mem(*sst), fin: Ref::lit(Kind::CredFin, h.hash(&[k])) });
             }
         }
+        if mode == 0 {
+            // the pending state as a deployment stores it: through every codec. A forger who
+            // knows the transcript hash (public: it is a hash of wire data) tries MACs under
+            // constant keys; the genuine finalization must still be accepted
+            let st_bytes = r.events.iter().zip(ops_snapshot.iter()).find_map(|(e, op)| match (op, &e.res) {
+                (Op::LoginRespond { st, .. }, Ok(outs)) if st == sst => outs.iter().find(|(n, _)| *n == "state").map(|(_, h)| h.0.clone()),
+                _ => None,
+            });
+            let h = crate::spec::oprf_hash(s.oprf());
+            for codec in crate::suite::BYTE_CODECS {
+                if let Some(sb) = &st_bytes {
+                    if sb.len() == 3 * nh {
+                        for k in [vec![0u8; nh], vec![0xFFu8; nh]] {
+                            for chunk in 0..3 {
+                                let forged = h.hmac(&k, &[&sb[chunk * nh..(chunk + 1) * nh]]);
+                                b.push(Op::ServerFinish { st: Ref::via(*sst, codec), fin: Ref::lit(Kind::CredFin, forged) });
+                            }
+                        }
+                    }
+                }
+                if let Some(f) = genuine {
+                    b.push(Op::ServerFinish { st: Ref::via(*sst, codec), fin: Ref::mem(*f) });
+                }
+            }
+        }
         // the genuine one, once more, after all the forgeries (through bytes)
         if let Some(f) = genuine {
             b.push(Op::ServerFinish { st: Ref::via(*sst, crate::suite::Codec::Native), fin: Ref::via(*f, crate::suite::Codec::Native) });
@@ -203,7 +228,7 @@ pub fn gen_world(seed: u64, idx: u64, s: &dyn SuiteOps, mode: usize) -> World {
 
 pub fn run(ctx: &Ctx) -> Report {
     let mut rep = Report::new(
-        "per world: 6 pending server states (two sessions of u1, u2, wrong-password, fake record, abandoned) x candidate finalizations: every finalization of the world (cross-session/user), all 8*Nh single-bit flips, all 255*Nh single-byte substitutions (modes 1..Nh/8, 8 offsets each), all-zero, all-0xFF, 64 random, wrong lengths, 12 secret-free constant MACs/hashes, 64 XOR-cancelling byte pairs, all adjacent transpositions, rotations, reversal; the genuine one must succeed with the client's key. The substitution family is enumerated completely per state; states/worlds are seeded samples. non-trivial = contains a predicted rejection",
+        "per world: 6 pending server states (two sessions of u1, u2, wrong-password, fake record, abandoned) x candidate finalizations: every finalization of the world (cross-session/user), all 8*Nh single-bit flips, all 255*Nh single-byte substitutions (modes 1..Nh/8, 8 offsets each), all-zero, all-0xFF, 64 random, wrong lengths, 12 secret-free constant MACs/hashes, constant-key MACs over each chunk of the stored state against the state reloaded through native/bincode/JSON (where the genuine finalization must still succeed), 64 XOR-cancelling byte pairs, all adjacent transpositions, rotations, reversal; the genuine one must succeed with the client's key. The substitution family is enumerated completely per state; states/worlds are seeded samples. non-trivial = contains a predicted rejection",
     );
     rep.exhaustive = Some(true);
     let mut suites: Vec<&'static dyn SuiteOps> = SIM_SUITES.to_vec();
